@@ -65,3 +65,20 @@ Definition stmt_abs_cmp : Prop :=
 Definition stmt_abs_diff : Prop :=
   forall a b, tp_norm a -> tp_norm b ->
     dt_diff (abs_tp a) (abs_tp b) = match tp_diff a b with Ok n => Ok (Len n) | _ => Panic end.
+
+(** ** DateTime - DateTime as the code does it (derived-order assert first): on normalised points it is the model's dt_diff;
+    without normalisation it is not (the assert fires although the instants are equal) *)
+Definition stmt_abs_diff_dt : Prop :=
+  forall a b, tp_norm a -> tp_norm b ->
+    dt_diff (abs_tp a) (abs_tp b) = match tp_diff_dt a b with Ok n => Ok (Len n) | _ => Panic end.
+Definition stmt_abs_diff_dt_refuted : Prop :=
+  exists a b, 0 <= tp_days a /\ 0 <= tp_secs a /\ 0 <= tp_days b /\ 0 <= tp_secs b /\
+    dt_diff (abs_tp a) (abs_tp b) = Ok (Len 0) /\ tp_diff_dt a b = Panic.
+(* the repaired loader reads a time as `DateTime::new(s) + Duration::ZERO`: for every accepted string the point is normalised
+   and denotes the instant the string names, so that on loaded times the derived order is the order of the instants *)
+Definition load_time (s : list Z) : res timepoint := do t <- parse_datetime s; Ok (tp_add t 0).
+Definition stmt_load_time_order : Prop :=
+  forall s1 s2 t1 t2, load_time s1 = Ok t1 -> load_time s2 = Ok t2 ->
+    tp_norm t1 /\ tp_norm t2 /\ tp_cmp t1 t2 = Z.compare (tp_lin t1) (tp_lin t2).
+Definition stmt_load_time_instant : Prop :=
+  forall s t, parse_datetime s = Ok t -> exists t', load_time s = Ok t' /\ tp_lin t' = tp_lin t.
